@@ -1,58 +1,23 @@
 // ======================================================================================
-// prelude/static_mem.rs (owner: static / C10) -- per-frame memory as the C10 instructions use it.
-// LOCAL, TRUSTED copy of ledger contracts that are being proved by builder c11-memory:
-//   * SharedMemory::len / slice / slice_range / set_data : clause text identical to contracts/memory.vc
-//     (proved in unit `memory`);
-//   * interpreter::resize_memory (the free fn behind `resize_memory!`): clause text as announced by c11-memory for
-//     contracts/meminstr.vc (`@fn crates/interpreter/src/interpreter.rs fn:resize_memory`, proved in unit `meminstr`).
-// To switch to the ledger replace this file's view declarations and assume_specifications by
-//   //@views memory uninterp   //@views meminstr uninterp   //@assume memory ...   //@assume meminstr ...
+// prelude/static_mem.rs (owner: static / C10) -- per-frame memory as the C10 instructions use it: all through the
+// contract LEDGER (nothing assumed locally):
+//   * SharedMemory::len / slice / slice_range / set_data : contracts/memory.vc, proved in unit `memory`;
+//   * interpreter::resize_memory (the free fn behind `resize_memory!`): contracts/meminstr.vc, proved in unit `meminstr`.
 // `//@include` after `//@views gas uninterp` and `//@views gascalc uninterp` (ceil32, yp_cmem).
 // ======================================================================================
-pub uninterp spec fn mem_parents(m: SharedMemory) -> Seq<Seq<u8>>;
-pub uninterp spec fn mem_ctx(m: SharedMemory) -> Seq<u8>;
-pub uninterp spec fn mem_wf(m: SharedMemory) -> bool;
-/// n zero bytes
-pub open spec fn mem_zeros(n: int) -> Seq<u8> { Seq::new(n as nat, |i: int| 0u8) }
-/// `len` bytes of `data` starting at `data_offset`, zero-padded where data ends
-pub open spec fn mem_padded(data: Seq<u8>, data_offset: int, len: int) -> Seq<u8> {
-    Seq::new(len as nat, |i: int| if data_offset + i < data.len() { data[data_offset + i] } else { 0u8 })
+//@views memory uninterp
+//@views meminstr uninterp
+//@assume memory crates/interpreter/src/interpreter/shared_memory.rs impl:SharedMemory fn:len
+//@assume memory crates/interpreter/src/interpreter/shared_memory.rs impl:SharedMemory fn:slice_range
+//@assume memory crates/interpreter/src/interpreter/shared_memory.rs impl:SharedMemory fn:slice
+//@assume memory crates/interpreter/src/interpreter/shared_memory.rs impl:SharedMemory fn:set_data
+// (the free fn `resize_memory` of interpreter.rs shares its name with the call helper of contract/call_helpers.rs that
+// this unit extracts: its assume_specification is emitted inside a module where the name means the real free fn)
+pub mod __resize_memory_ledger {
+use super::*;
+use revm_interpreter::interpreter::resize_memory;
+//@assume meminstr crates/interpreter/src/interpreter.rs fn:resize_memory
 }
-/// frame of every operation that only touches the current frame
-pub open spec fn mem_frame(pre: SharedMemory, post: SharedMemory) -> bool {
-    mem_wf(post) && mem_parents(post) == mem_parents(pre)
-}
-/// memory already paid for + gas left < 2^55 (holds at frame start iff gas_limit < 2^55; preserved by every charge)
-pub open spec fn mem_gas_inv(m: SharedMemory, g: Gas) -> bool {
-    yp_cmem(ceil32(mem_ctx(m).len() as int)) + gas_remaining(g) < 0x80_0000_0000_0000
-}
-
-pub assume_specification [SharedMemory::len] (self_: &SharedMemory) -> (r: usize)
-    requires mem_wf(*self_),
-    ensures r == mem_ctx(*self_).len();
-pub assume_specification [SharedMemory::slice_range] (self_: &SharedMemory, range: Range<usize>) -> (r: &[u8])
-    requires mem_wf(*self_), range.start <= range.end <= mem_ctx(*self_).len(),
-    ensures r@ == mem_ctx(*self_).subrange(range.start as int, range.end as int);
-pub assume_specification [SharedMemory::slice] (self_: &SharedMemory, offset: usize, size: usize) -> (r: &[u8])
-    requires mem_wf(*self_), offset + size <= mem_ctx(*self_).len(),
-    ensures r@ == mem_ctx(*self_).subrange(offset as int, offset + size);
-pub assume_specification [SharedMemory::set_data] (self_: &mut SharedMemory, memory_offset: usize, data_offset: usize, len: usize, data: &[u8])
-    requires mem_wf(*old(self_)), memory_offset + len <= mem_ctx(*old(self_)).len(),
-    ensures
-        mem_ctx(*final(self_)) == mem_ctx(*old(self_)).subrange(0, memory_offset as int)
-            + mem_padded(data@, data_offset as int, len as int)
-            + mem_ctx(*old(self_)).subrange(memory_offset + len, mem_ctx(*old(self_)).len() as int),
-        mem_ctx(*final(self_)).len() == mem_ctx(*old(self_)).len(),
-        mem_frame(*old(self_), *final(self_));
-pub assume_specification [revm_interpreter::interpreter::resize_memory] (memory: &mut SharedMemory, gas: &mut Gas, new_size: usize) -> (success: bool)
-    requires mem_wf(*old(memory)), gas_wf(*old(gas)), new_size >= mem_ctx(*old(memory)).len(), mem_gas_inv(*old(memory), *old(gas)),
-    ensures
-        gas_wf(*final(gas)), gas_limit(*final(gas)) == gas_limit(*old(gas)), gas_refunded(*final(gas)) == gas_refunded(*old(gas)),
-        mem_frame(*old(memory), *final(memory)), mem_gas_inv(*final(memory), *final(gas)),
-        success == (yp_cmem(ceil32(new_size as int)) - yp_cmem(ceil32(mem_ctx(*old(memory)).len() as int)) <= gas_remaining(*old(gas))),
-        success ==> gas_remaining(*final(gas)) == gas_remaining(*old(gas)) - (yp_cmem(ceil32(new_size as int)) - yp_cmem(ceil32(mem_ctx(*old(memory)).len() as int)))
-            && mem_ctx(*final(memory)) == mem_ctx(*old(memory)) + mem_zeros(32 * ceil32(new_size as int) - mem_ctx(*old(memory)).len()),
-        !success ==> *final(gas) == *old(gas) && *final(memory) == *old(memory);
 
 /// after a successful `resize_memory!(interp, offset, len)` (new_size = offset.saturating_add(len) > old length):
 /// the sum did not saturate and the range [offset, offset + len) lies inside the frame's memory
